@@ -12,6 +12,7 @@ ID = "C08"
 LEVEL = "exploration"
 STEP_BUDGET = 60_000_000
 HANDLE_CLOSE_CHECK = True
+OPEN_INTERPOSE = True  # files the library opens by path (parents, extents, bundle images) are wrapped in observing proxies
 ANCHOR_FILES = [f"dissect/hypervisor/disk/{m}.py" for m in ("qcow2", "vmdk", "vhdx", "vhd", "vdi", "hdd")]
 RULE = (
     "Model-based random histories (seek SET/CUR/END incl. beyond the end and negative, read(n) for n in {0, 1, small, "
